@@ -7,7 +7,6 @@ import (
 	"net/http/httptest"
 	"strings"
 	"sync"
-	"sync/atomic"
 	"time"
 
 	"github.com/nuetzliches/hookaido/internal/queue"
@@ -25,19 +24,21 @@ type Attempt struct {
 	Method     string
 	Outcome    string
 	Unexpected bool
+	clen       int64
 }
 
 // aux is the per-journey state of the auxiliary servers.
 type aux struct {
-	mu       sync.Mutex
-	auth     []Field // header fields of the forward-auth response
-	authVia  string
-	authSeen int
-	outcome  string // what the target answers to the next delivery
-	attempts []Attempt
-	pending  *Attempt // recorded by the RoundTripper, completed by the target
-	gate     *gate
-	arrived  chan struct{}
+	mu         sync.Mutex
+	auth       []Field // header fields of the forward-auth response
+	authVia    string
+	authSeen   int
+	outcome    string // what the target answers to the next delivery
+	attempts   []Attempt
+	companions []Attempt
+	pending    []*Attempt // recorded by the RoundTripper, completed by the target
+	gate       *gate
+	arrived    chan struct{}
 }
 
 // Aux hosts the forward-auth server and the push target for all journeys of a process.
@@ -114,10 +115,25 @@ func (a *Aux) serve(w http.ResponseWriter, r *http.Request) {
 	case strings.HasPrefix(r.URL.Path, "/t/"):
 		body, _ := io.ReadAll(r.Body)
 		x.mu.Lock()
-		att := x.pending
-		x.pending = nil
+		var att *Attempt
+		for i, p := range x.pending {
+			if p.clen == r.ContentLength {
+				att = p
+				x.pending = append(x.pending[:i], x.pending[i+1:]...)
+				break
+			}
+		}
 		if att == nil {
 			att = &Attempt{}
+		}
+		if isCompanionBody(body) {
+			// the harness' own second message on the route: accept it, it is not an attempt of the journey's message
+			att.WireHeader = r.Header.Clone()
+			att.Body = body
+			x.companions = append(x.companions, *att)
+			x.mu.Unlock()
+			w.WriteHeader(http.StatusOK)
+			return
 		}
 		att.WireHeader = r.Header.Clone()
 		att.Body = body
@@ -132,7 +148,7 @@ func (a *Aux) serve(w http.ResponseWriter, r *http.Request) {
 		ch := x.arrived
 		x.mu.Unlock()
 		if g != nil {
-			g.open.Store(false) // no further dequeue by the dispatcher until the next Push step
+			g.Close() // no further dequeue by the dispatcher until the next Push step
 		}
 		switch att.Outcome {
 		case "ok":
@@ -161,7 +177,7 @@ type recordingRT struct {
 func (t *recordingRT) RoundTrip(req *http.Request) (*http.Response, error) {
 	if x := t.aux.lookup(req.URL.Path); x != nil && strings.HasPrefix(req.URL.Path, "/t/") {
 		x.mu.Lock()
-		x.pending = &Attempt{Header: req.Header.Clone()}
+		x.pending = append(x.pending, &Attempt{Header: req.Header.Clone(), clen: req.ContentLength})
 		x.mu.Unlock()
 	}
 	return t.base.RoundTrip(req)
@@ -170,11 +186,42 @@ func (t *recordingRT) RoundTrip(req *http.Request) (*http.Response, error) {
 // ---------------------------------------------------------------- gated stores (deliver routes)
 
 // gate lets the harness decide when the push dispatcher may take the message:
-// a scheduler hook at operation entry, it does not touch any data.  It also
-// shortens the dispatcher's long poll so that a journey does not wait for it.
-type gate struct{ open atomic.Bool }
+// a scheduler hook at operation entry, it does not touch any data.  While the
+// gate is closed the dispatcher's Dequeue finds nothing; while it is open the
+// call goes to the real store without the long poll (so no call is in flight
+// when the gate closes: Close waits for running calls).
+type gate struct {
+	mu   sync.RWMutex
+	open bool
+}
 
-const gatedPoll = 4 * time.Millisecond
+func (g *gate) Open() {
+	g.mu.Lock()
+	g.open = true
+	g.mu.Unlock()
+}
+
+func (g *gate) Close() {
+	g.mu.Lock()
+	g.open = false
+	g.mu.Unlock()
+}
+
+func (g *gate) pass(req queue.DequeueRequest, real func(queue.DequeueRequest) (queue.DequeueResponse, error)) (queue.DequeueResponse, error) {
+	g.mu.RLock()
+	if !g.open {
+		g.mu.RUnlock()
+		time.Sleep(time.Millisecond)
+		return queue.DequeueResponse{}, nil
+	}
+	req.MaxWait = 0
+	resp, err := real(req)
+	g.mu.RUnlock()
+	if err == nil && len(resp.Items) == 0 {
+		time.Sleep(time.Millisecond)
+	}
+	return resp, err
+}
 
 type memGated struct {
 	*queue.MemoryStore
@@ -182,14 +229,7 @@ type memGated struct {
 }
 
 func (m memGated) Dequeue(req queue.DequeueRequest) (queue.DequeueResponse, error) {
-	if !m.g.open.Load() {
-		time.Sleep(time.Millisecond)
-		return queue.DequeueResponse{}, nil
-	}
-	if req.MaxWait > gatedPoll {
-		req.MaxWait = gatedPoll
-	}
-	return m.MemoryStore.Dequeue(req)
+	return m.g.pass(req, m.MemoryStore.Dequeue)
 }
 
 type sqlGated struct {
@@ -198,14 +238,7 @@ type sqlGated struct {
 }
 
 func (m sqlGated) Dequeue(req queue.DequeueRequest) (queue.DequeueResponse, error) {
-	if !m.g.open.Load() {
-		time.Sleep(time.Millisecond)
-		return queue.DequeueResponse{}, nil
-	}
-	if req.MaxWait > gatedPoll {
-		req.MaxWait = gatedPoll
-	}
-	return m.SQLiteStore.Dequeue(req)
+	return m.g.pass(req, m.SQLiteStore.Dequeue)
 }
 
 // ---------------------------------------------------------------- configuration
@@ -233,7 +266,7 @@ func ConfigText(backend, mode string, lim, fwd bool, auxURL, jid string) string 
 			auxURL, jid, CanonName(nameLower["uid"]), nameLower["org"])
 	}
 	if mode == "push" {
-		fmt.Fprintf(&b, "  deliver \"%s/t/%s\" {\n    retry exponential max 20 base 1ms cap 1ms jitter 0\n    timeout 20s\n  }\n  deliver_concurrency 1\n", auxURL, jid)
+		fmt.Fprintf(&b, "  deliver \"%s/t/%s\" {\n    retry exponential max 20 base 1ms cap 1ms jitter 0\n    timeout 20s\n  }\n  deliver_concurrency 4\n", auxURL, jid)
 	} else {
 		b.WriteString("  pull { path /pull/in }\n")
 	}
